@@ -139,8 +139,8 @@ def gen_module(rng, params):
             term = {"v": "icall"}
         if term is None and (last_in_section or not next_is_code):
             # do not run off the end of code
-            if rng.random() < 0.8:
-                term = {"v": "ret"}
+            if rng.random() >= params.get("wild", 0.0):
+                term = {"v": rng.choice(["ret", "ret", "ijmp"])}
         if term:
             term["id"] = ids("i")
             b["items"].append(term)
@@ -339,6 +339,86 @@ def labels_of(model):
 
 
 def gen_session(rng, model, params, index):
+    """Generate one session; reject shapes outside the stated preconditions
+    (code that runs off the end of code into data or the end of a section,
+    branches to labels that end up on data) unless the run is 'wild'."""
+    wild = rng.random() < params.get("wild", 0.0)
+    for attempt in range(6):
+        sd = _gen_session(rng, model, params, index)
+        if wild or shape_ok(model, sd, params):
+            sd["wild"] = wild
+            return sd
+    return {"ops": [], "reg_order": [], "wild": False}
+
+
+def patch_shape_tokens(pdesc, isa):
+    """Kinds-only tokens of a patch descriptor (no bytes needed)."""
+    from .model import Tok
+    from . import vocab
+
+    v = vocab.get(isa)
+    toks = []
+    if "bytes" in pdesc:
+        return [Tok("data", "x", b=b"\0")]
+    for ln in pdesc["lines"]:
+        if "label" in ln:
+            toks.append(Tok("label", "x", name="(patch)" + ln["label"]))
+        elif "raw" in ln:
+            toks.append(Tok("data", "x", b=b"\0"))
+        elif "marker" in ln:
+            toks.append(Tok("insn", "x", b=b"\0", ikind="plain"))
+        else:
+            toks.append(Tok("insn", "x", b=b"\0", ikind=v.kind(ln), target=ln.get("t") if not ln.get("ttemp") else None))
+    return toks
+
+
+def shape_ok(model, sd, params):
+    from . import driver
+    from .vocab import NO_FALLTHROUGH
+
+    m = model.clone()
+    isa = params["_isa"]
+    try:
+        mods = []
+        for oi, op in enumerate(sd["ops"]):
+            key, off, length = driver.resolve_op(m, op)
+            mods.append((key, off, oi, op, length))
+        mods.sort(key=lambda x: (x[0], x[1], x[2]))
+        for key, off, oi, op, length in mods:
+            if op["k"] in ("del", "delblock"):
+                m.delete(key, off, length, proxy=bool(op.get("proxy")))
+            else:
+                if length:
+                    m.delete(key, off, length, replacing=True)
+                m.insert(key, off, patch_shape_tokens(op["patch"], isa), replace_len=length)
+    except Exception:
+        return False
+    # rule 1: nothing falls off the end of code
+    targets = set()
+    for sname in m.section_order:
+        seq = [t for u in m.sections[sname] for t in u.toks if t.is_bytes()]
+        for a, b in zip(seq, seq[1:] + [None]):
+            if a.kind == "insn" and a.ikind not in NO_FALLTHROUGH and a.ikind != "ret":
+                if b is None or b.kind != "insn":
+                    return False
+            if a.kind == "insn" and a.ikind in ("jmp", "jcc", "call") and a.target:
+                targets.add(a.target)
+    # rule 2: control-flow targets label code
+    for sname in m.section_order:
+        for u in m.sections[sname]:
+            toks = u.toks
+            for i, t in enumerate(toks):
+                if t.kind == "label" and t.name in targets:
+                    nb = None
+                    from . import expect
+
+                    nb = expect.next_byte_token(m, sname, u, i)
+                    if nb is None or nb[1].kind != "insn":
+                        return False
+    return True
+
+
+def _gen_session(rng, model, params, index):
     """Generate one session's ops against the current spans of the model."""
     ids = IdGen()
     ids.n = 1000 * (index + 1)
